@@ -902,6 +902,7 @@ func zzRunC16(r *sim.Run) {
 	uuid.SetRand(sim.NewDetReader(sim.Mix(r.Seed, 78)))
 	defer uuid.SetRand(nil)
 	byz := r.Config == "byzantine"
+	limit := []int{64 << 10, 256 << 10, 2 << 20}[t.Choose("recv.limit", 3)]
 	var done bool
 	var hung string
 	var sentMsgs []zzSent
@@ -917,7 +918,8 @@ func zzRunC16(r *sim.Run) {
 		}
 		a, bb := simnet.Pipe("peer", "node", f, simnet.Faults{Latency: 5 * time.Millisecond, CutAfter: -1, SilentAfter: -1})
 		// the node under test: a connection with a receiver that accepts all six types
-		nconn, ncancel, err := connection.NewConn(connection.WithNetConn(bb), connection.WithContext(ctx))
+		// the receive limit is set through the public option (tape-chosen), not assumed
+		nconn, ncancel, err := connection.NewConn(connection.WithNetConn(bb), connection.WithContext(ctx), connection.MaxRecvMsgSize(uint32(limit)))
 		if err != nil {
 			sim.EngineError("conn: %v", err)
 		}
@@ -963,7 +965,7 @@ func zzRunC16(r *sim.Run) {
 					continue
 				}
 				// byzantine peer: raw frames on the stream
-				frame, fdesc, kind := zzHostileFrame(t, msg, desc)
+				frame, fdesc, kind := zzHostileFrame(t, msg, desc, limit)
 				r.Event("peer writes %s (%d bytes)", fdesc, len(frame))
 				switch kind {
 				case zzFrameValid:
@@ -975,6 +977,17 @@ func zzRunC16(r *sim.Run) {
 				}
 				a.Write(frame)
 				zzSleep(50 * time.Millisecond)
+				if kind == zzFrameOversize && !expectClose {
+					// (only while the byte stream is still in step: after a malformed frame the
+					// prefix may be swallowed as somebody's body)
+					// a length prefix above the receive limit is refused before anything is allocated
+					// or read: the node drops the connection at once
+					zzSleep(time.Second)
+					if !a.Closed() {
+						r.Fail("C16/oversize-frame-accepted/length-prefix", "the node keeps the connection and waits for the body of a frame announced as %s, with a receive limit of %d bytes", fdesc, limit)
+					}
+					expectClose = true
+				}
 			}
 			zzSleep(3 * time.Second)
 			runtime.ReadMemStats(&ms)
@@ -1179,9 +1192,10 @@ const (
 	zzFrameValid   = iota // a well-formed message: must be delivered, equal
 	zzFrameNoise          // no message, and no reason to close (keep-alive)
 	zzFrameHostile        // malformed: the receiver may deliver an error and close; it must not panic, hang or allocate without bound
+	zzFrameOversize       // a length prefix above the receive limit
 )
 
-func zzHostileFrame(t *sim.Tape, msg protocol.Message, desc string) (frame []byte, what string, kind int) {
+func zzHostileFrame(t *sim.Tape, msg protocol.Message, desc string, limit int) (frame []byte, what string, kind int) {
 	body, err := protocol.EncodeMessage(msg)
 	if err != nil {
 		body = []byte{0, 1, '{', '}'}
@@ -1223,10 +1237,11 @@ func zzHostileFrame(t *sim.Tape, msg protocol.Message, desc string) (frame []byt
 		return mk(body)[:4+len(body)/2], "truncated frame (then whatever follows)", zzFrameHostile
 	case 8:
 		return []byte{0, 0, 0, 0}, "keep-alive (zero length)", zzFrameNoise
-	case 9:
-		return []byte{0xff, 0xff, 0xff, 0xff, 1, 2, 3}, "length prefix 2^32-1", zzFrameHostile
-	case 10:
-		return []byte{0, 0x20, 0, 1, 0, 1}, "length prefix just above the receive limit", zzFrameHostile
+	case 9, 10:
+		n := []int{limit + 1, 16 * limit, 1 << 30}[t.Choose("byz.oversize", 3)]
+		hdr := make([]byte, 4)
+		binary.BigEndian.PutUint32(hdr, uint32(n))
+		return append(hdr, 1, 2, 3), fmt.Sprintf("%d bytes", n), zzFrameOversize
 	case 11:
 		return hostile(rep(`"public_key":"`, `"public_key":"00`), "bad group element")
 	case 12:
@@ -1237,7 +1252,7 @@ func zzHostileFrame(t *sim.Tape, msg protocol.Message, desc string) (frame []byt
 		n := 1 + t.Choose("byz.garbage", 4096)
 		return mk(append(append([]byte{}, body[:2]...), sim.DetBytes("garbage", uint64(n), n)...)), fmt.Sprintf("%d random bytes behind a valid type prefix", n), zzFrameHostile
 	default:
-		deep := bytes.Repeat([]byte{'['}, 2*1024*1024-2)
-		return mk(append(append([]byte{}, body[:2]...), deep...)), "2 MiB of nested arrays (largest admissible frame)", zzFrameHostile
+		deep := bytes.Repeat([]byte{'['}, limit-2)
+		return mk(append(append([]byte{}, body[:2]...), deep...)), fmt.Sprintf("%d bytes of nested arrays (largest admissible frame)", limit), zzFrameHostile
 	}
 }
